@@ -68,6 +68,9 @@ type querySpec struct {
 	// data race of its own that is not this property's subject.
 	UseKeyID bool   `json:"use_key_id,omitempty"`
 	KeyID    uint32 `json:"key_id,omitempty"`
+	// fwdHint (optional): expected forward index of the queried tag key per index database, only to
+	// make reading a tag key with very many series affordable (see forwardOf)
+	fwdHint func(idx int) map[uint32]uint32
 }
 
 func (q querySpec) String() string {
@@ -321,7 +324,11 @@ func execQuery(n *node, q querySpec) (*queryOut, error) {
 				out.Forward = append(out.Forward, nil)
 				continue
 			}
-			fwd, sids, err := forwardOf(d, uint32(kid))
+			var hint map[uint32]uint32
+			if q.fwdHint != nil {
+				hint = q.fwdHint(i)
+			}
+			fwd, sids, err := forwardOf(d, uint32(kid), hint)
 			if err != nil && !isNotFound(err) {
 				return nil, fmt.Errorf("forward index (idx%d %s): %w", i, q, err)
 			}
@@ -330,6 +337,14 @@ func execQuery(n *node, q querySpec) (*queryOut, error) {
 		}
 	}
 	return out, nil
+}
+
+// clip shortens the rendering of a very long answer (volume histories: 10^5 names).
+func clip(s string, max int) string {
+	if len(s) <= max {
+		return s
+	}
+	return fmt.Sprintf("%s ... [%d more bytes]", s[:max], len(s)-max)
 }
 
 func arrayOf(b *roaring.Bitmap) []uint32 {
@@ -348,7 +363,7 @@ func arrayOf(b *roaring.Bitmap) []uint32 {
 func (m *model) judge(q querySpec, out *queryOut, exact bool) error {
 	required := func(x *ident) bool { return exact || x.seq < m.seq }
 	disagree := func(format string, args ...any) error {
-		return fmt.Errorf("QUERY DISAGREES: %s: %s (answer: %s)", q, fmt.Sprintf(format, args...), out)
+		return fmt.Errorf("QUERY DISAGREES: %s: %s (answer: %s)", q, clip(fmt.Sprintf(format, args...), 4000), clip(out.String(), 4000))
 	}
 	// enumerations: want = name -> required?
 	judgeNames := func(what string, want map[string]bool) error {
@@ -417,7 +432,7 @@ func (m *model) judge(q querySpec, out *queryOut, exact bool) error {
 			if x == nil {
 				return disagree("schema of %s has field %q (id %d) that nobody created", k, f.Name, f.ID)
 			}
-			if err := x.set(fmt.Sprintf("field %s.%s (GetSchema of %s)", k, f.Name, q.Kind), f.ID); err != nil {
+			if err := x.setf(f.ID, "field %s.%s (GetSchema of %s)", k, f.Name, q.Kind); err != nil {
 				return err
 			}
 		}
@@ -436,7 +451,7 @@ func (m *model) judge(q querySpec, out *queryOut, exact bool) error {
 			if x == nil {
 				return disagree("schema of %s has tag key %q (id %d) that nobody created", k, t.Name, t.ID)
 			}
-			if err := x.set(fmt.Sprintf("tag key %s[%s] (GetSchema of %s)", k, t.Name, q.Kind), t.ID); err != nil {
+			if err := x.setf(t.ID, "tag key %s[%s] (GetSchema of %s)", k, t.Name, q.Kind); err != nil {
 				return err
 			}
 		}
@@ -475,9 +490,27 @@ func (m *model) judge(q querySpec, out *queryOut, exact bool) error {
 			if !all && !q.matches(v) {
 				return disagree("value %q (id %d) does not satisfy the filter", v, out.Values[v])
 			}
-			if err := x.set(fmt.Sprintf("tag value %s[%s=%s] (%s)", k, q.Key, v, q.Kind), out.Values[v]); err != nil {
+			if err := x.setf(out.Values[v], "tag value %s[%s=%s] (%s)", k, q.Key, v, q.Kind); err != nil {
 				return err
 			}
+		}
+		// the series of the metric by their value of the queried tag key (built once per index database)
+		byValue := make([]map[string][]*seriesM, m.nIdx)
+		seriesWith := func(i int) map[string][]*seriesM {
+			if byValue[i] == nil {
+				byValue[i] = map[string][]*seriesM{}
+				for _, s := range m.series[i][k] {
+					if !s.has || s.foundOnly {
+						continue
+					}
+					for _, kv := range s.tags {
+						if kv.K == q.Key {
+							byValue[i][kv.V] = append(byValue[i][kv.V], s)
+						}
+					}
+				}
+			}
+			return byValue[i]
 		}
 		wantSeries := make([]map[uint32]bool, m.nIdx) // series id -> required
 		for i := range wantSeries {
@@ -495,16 +528,8 @@ func (m *model) judge(q querySpec, out *queryOut, exact bool) error {
 				continue
 			}
 			for i := range m.series {
-				for _, c := range sortedKeys(m.series[i][k]) {
-					s := m.series[i][k][c]
-					if !s.has || s.foundOnly {
-						continue
-					}
-					for _, kv := range s.tags {
-						if kv.K == q.Key && kv.V == v {
-							wantSeries[i][s.id] = required(&s.ident)
-						}
-					}
+				for _, s := range seriesWith(i)[v] {
+					wantSeries[i][s.id] = required(&s.ident)
 				}
 			}
 		}
@@ -560,7 +585,7 @@ func (m *model) judge(q querySpec, out *queryOut, exact bool) error {
 				if len(vids) != 1 || x == nil {
 					return disagree("forward index idx%d: series %d -> tag value ids %v, the series was created with %s=%q", i, s, vids, q.Key, v)
 				}
-				if err := x.set(fmt.Sprintf("tag value %s[%s=%s] (forward index idx%d series %d)", k, q.Key, v, i, s), vids[0]); err != nil {
+				if err := x.setf(vids[0], "tag value %s[%s=%s] (forward index idx%d series %d)", k, q.Key, v, i, s); err != nil {
 					return err
 				}
 			}
